@@ -385,6 +385,10 @@ func (e *Engine) verifyFunc(ct *FuncContract, prop string) (res *FuncResult) {
 	}
 	fc.useLemmas(st)
 	fc.initFrame(st)
+	// `holds x.lock`: entered with the monitored lock held (a "...Nolock" helper called inside a critical section)
+	for _, h := range ct.Holds {
+		st.held[h] = tTrue
+	}
 	fc.entry = st.clone()
 	fc.canary(st, "canary.entry", fc.body.Pos())
 	end := fc.execBlock(st, fc.body.List)
